@@ -175,6 +175,16 @@ def run(run):
             outcomes[cls] = outcomes.get(cls, 0) + 1
             if not a.startswith("ok"):
                 run.nontrivial.add(q)
+    # internal helpers (pub only for testing): the overflow-checked build must behave exactly as the model's outcome type says,
+    # including the u32 doubling overflow for resolutions above 30 (correspondence only; not part of the public API the property quantifies over)
+    hreq = []
+    for r in [2, 29, 30, 31, 32, 45, 64, 1000, 2147483647, -1, -5, -2147483648]:
+        hreq.append(f"get_stride {r}")
+        hreq.append(f"is_first_child {gen.rand_cell(rng)} {r}")
+    hexe = core.harness(run, "debug")
+    himpl = core.run_isolated(hexe, hreq, mem_bytes=2 << 30, timeout_total=300)
+    hmodel = core.run_driver(hreq, timeout=300)
+    run.correspond(hreq, himpl, hmodel, None, "internal-helpers[debug]")
     run.rule = ("corpus of the repaired crash inputs first, then a malformed stream over all 13 public functions: random u64, canonical ids with stray low bits, marker-only patterns with any top six bits, "
                 "top bits 60..63, aliases of the world cell, single-bit flips x i32 resolutions (small, boundary 29/30/31, extremes) x finite coordinates incl. 1e300 and sub-normals; "
                 "each line run in BOTH an overflow-checked debug build and a release build of the harness with a 2 GiB address-space limit (crash or hang = lost line, reported); "
